@@ -340,10 +340,10 @@ def run(chk):
         rule = "C14.R2" if cls in ("StatTotalReturn", "SetStat") else ("C14.R3" if cls == "SelectN" else "C14.R4")
         check_equiv(chk, rule, ALGOS, cls, "__call__", src, "documented-set", "%s: %s" % (cls, WHAT[cls]))
     select_n_init(chk)
-    from .c20 import REFS as RISK_REFS
+    from .c20 import REFS as RISK_REFS, ALT_REFS as _C20_ALT
     for cls_, name_, src_, what_ in RISK_REFS:
         if cls_ in ("ClosePositionsAfterDates", "RollPositionsAfterDates"):
-            check_equiv(chk, "C20.R3", ALGOS, cls_, name_, src_, "documented-behaviour", "%s.%s: %s" % (cls_, name_, what_), limit=14)
+            check_equiv(chk, "C20.R3", ALGOS, cls_, name_, src_, "documented-behaviour", "%s.%s: %s" % (cls_, name_, what_), limit=14, alt_refs=_C20_ALT.get((cls_, name_), ()))
     random_sample(chk)
     # "never a ticker outside the strategy's universe": what the universe is (declared tickers present in the data, all if none declared)
     tree_rules.universe_rules(chk, "C19")
